@@ -196,5 +196,121 @@ func cliExtra(t *tr) string {
 		fmt.Fprintf(&b, "%q", c)
 	}
 	b.WriteString("]\n")
+	cliSignals(t, &b, fd, sigClause)
 	return b.String()
+}
+
+// cliSignalNumber: the signal number of an argument of signal.Notify / of a case of the signal switch:
+// a typed constant (syscall.SIGINT), or one of the two variables of package os; 0 = not understood
+func cliSignalNumber(t *tr, e ast.Expr) int64 {
+	if v, ok := phoutConstInt(t, e); ok {
+		return v
+	}
+	switch phoutSrc(t, e) {
+	case "os.Interrupt":
+		return 2
+	case "os.Kill":
+		return 9
+	}
+	return 0
+}
+
+// cliSignals emits
+//
+//	notifiedSignals : List Nat           the signals passed to signal.Notify (numbers; every other signal keeps its
+//	                                     default action: SIGINT/SIGTERM kill the process at once, nothing is flushed)
+//	signalCases : List (Nat × Bool × Nat)  per case of the `switch sig`: signal number, does the case call
+//	                                     gracefulShutdown(), the interrupt timeout in ms that holds after the case
+func cliSignals(t *tr, b *strings.Builder, fd *ast.FuncDecl, sigClause *ast.CommClause) {
+	var notified []int64
+	found := false
+	ast.Inspect(fd.Body, func(n ast.Node) bool {
+		c, ok := n.(*ast.CallExpr)
+		if !ok || phoutSrc(t, c.Fun) != "signal.Notify" {
+			return true
+		}
+		found = true
+		for _, a := range c.Args[1:] {
+			notified = append(notified, cliSignalNumber(t, a))
+		}
+		if len(c.Args) == 1 {
+			notified = append(notified, 2, 15) // Notify(c) without signals relays all of them
+		}
+		return true
+	})
+	if !found {
+		t.fail(fd, "no signal.Notify call in awaitPandoraTermination")
+	}
+	b.WriteString("/-- regenerated: the signal numbers passed to `signal.Notify` (0 = an argument that was not understood) -/\n")
+	b.WriteString("def notifiedSignals : List Nat := [")
+	for i, n := range notified {
+		if i > 0 {
+			b.WriteString(", ")
+		}
+		fmt.Fprintf(b, "%d", n)
+	}
+	b.WriteString("]\n")
+	// the interrupt timeout: `var interruptTimeout = <const>` before the switch, `interruptTimeout = <const>` in a case
+	ms := func(e ast.Expr) int64 {
+		if v, ok := phoutConstInt(t, e); ok {
+			return v / 1_000_000
+		}
+		return -1
+	}
+	var def int64 = -1
+	var toName string
+	type sc struct {
+		sig     int64
+		cancels bool
+		tmo     int64
+	}
+	var cs []sc
+	for _, st := range sigClause.Body {
+		switch x := st.(type) {
+		case *ast.DeclStmt:
+			ast.Inspect(x, func(n ast.Node) bool {
+				if vs, ok := n.(*ast.ValueSpec); ok && len(vs.Names) == 1 && len(vs.Values) == 1 && def < 0 {
+					if v := ms(vs.Values[0]); v >= 0 {
+						def, toName = v, vs.Names[0].Name
+					}
+				}
+				return true
+			})
+		case *ast.AssignStmt:
+			if len(x.Lhs) == 1 && len(x.Rhs) == 1 && def < 0 {
+				if v := ms(x.Rhs[0]); v >= 0 {
+					def, toName = v, phoutSrc(t, x.Lhs[0])
+				}
+			}
+		case *ast.SwitchStmt:
+			for _, c := range x.Body.List {
+				cc := c.(*ast.CaseClause)
+				tmo, cancels := def, false
+				for _, bs := range cc.Body {
+					if phoutSrc(t, bs) == "gracefulShutdown()" {
+						cancels = true
+					}
+					if as, ok := bs.(*ast.AssignStmt); ok && len(as.Lhs) == 1 && len(as.Rhs) == 1 && phoutSrc(t, as.Lhs[0]) == toName {
+						tmo = ms(as.Rhs[0])
+					}
+				}
+				for _, e := range cc.List {
+					cs = append(cs, sc{cliSignalNumber(t, e), cancels, tmo})
+				}
+			}
+		}
+	}
+	b.WriteString("/-- regenerated: per case of the `switch sig`: (signal number, calls gracefulShutdown(), interrupt timeout in ms) -/\n")
+	b.WriteString("def signalCases : List (Nat × Bool × Nat) := [")
+	for i, c := range cs {
+		if i > 0 {
+			b.WriteString(", ")
+		}
+		tmo := c.tmo
+		if tmo < 0 {
+			tmo = 0
+		}
+		fmt.Fprintf(b, "(%d, %v, %d)", c.sig, c.cancels, tmo)
+	}
+	b.WriteString("]\n")
 }
